@@ -12,6 +12,7 @@ import numpy as np
 
 from ..core import import_library
 from ..gen import terms as G
+from ..env import ENVIRONMENTS, excusable, hostile
 from ..probe import Probe, Reach, ResultKeeper, check_unmutated, snapshot_arrays
 from ..ref import terms as R
 
@@ -32,6 +33,8 @@ class MembershipMonitor:
         self.sel = __import__("random").Random(f"c03sel:{ctx.seed}:{ctx.shard}")
         self.orig = {}
         self.keeper = None  # ResultKeeper, set by the check's own workload
+        self.hands_off = False  # True: judge from the recorded values only, make no call into the library (the workload is
+        # looking for state that any call in between would reset)
 
     def install(self, probe):
         for kind in list(R.REF) + ["Constant"]:
@@ -54,6 +57,9 @@ class MembershipMonitor:
             ctx.hit("out_of_domain:invalid or default parameters")
             return
         kind, p, h = got
+        if kind in SQUARING and not computable(p):
+            ctx.hit("out_of_domain:the documented definition squares a parameter that is beyond 1e+-150")
+            return
         try:
             X = np.asarray(x, dtype=float)
         except Exception:
@@ -106,7 +112,7 @@ class MembershipMonitor:
             if tab is not None and len(tab) < 400:
                 tab[v] = y
         # array result must equal evaluating the elements one by one (exactly)
-        if X.ndim > 0 and n > 0:
+        if X.ndim > 0 and n > 0 and not self.hands_off:
             for i in self.sel.sample(idx, min(6, len(idx))):
                 one = float(np.asarray(self.orig[kind](term, float(xs[i]))))
                 ctx.hit("law:array==elementwise")
@@ -155,6 +161,32 @@ class MembershipMonitor:
             ctx.hit(f"declares_monotonic:{kind}:{declared}")
 
 
+SQUARING = ("Arc", "SemiEllipse", "Gaussian", "GaussianProduct", "Bell")
+
+
+def computable(p):
+    """the documented definitions of Arc / SemiEllipse (r^2 - (x-c)^2), Gaussian (sigma^2) and Bell (|.|^2b) square quantities
+    of the scale of the parameters: beyond 1e+-150 the definition itself is not computable in doubles"""
+    vals = [abs(v) for v in p if math.isfinite(v) and v != 0.0]
+    vals += [abs(a - b) for a in p for b in p if math.isfinite(a) and math.isfinite(b) and a != b]
+    return not vals or (min(vals) >= 1e-150 and max(vals) <= 1e150)
+
+
+def extreme_ranges(rnd):
+    """ranges far from the origin, very wide and very narrow ones (parameters are any doubles, no decimals grid)"""
+    c = rnd.random()
+    if c < 0.4:
+        lo = rnd.choice([1e6, -1e6, 1e9, 1e12, -1e12, 1e15])
+        return lo, lo + rnd.choice([1.0, 16.0, 1000.0]), None
+    if c < 0.6:
+        w = rnd.choice([1e20, 1e100, 1e160, 1e300])
+        return -w * rnd.choice([0.0, 1.0, 1.0]), w, None
+    if c < 0.8:
+        lo = rnd.uniform(-1, 1)
+        return lo, lo + rnd.choice([1e-6, 1e-9, 1e-12]), None
+    return 0.0, rnd.choice([1e-300, 1e-170, 1e-100, 1e-20]), None
+
+
 def ranges(rnd):
     c = rnd.random()
     if c < 0.3:
@@ -185,14 +217,20 @@ def run(ctx):
     ]
     kinds = list(R.REF)
     funcs = {f"{k}.membership": getattr(fl, k).membership for k in kinds + ["Constant"]}
+    ctx.excuse = lambda mechanism, observed, note: excusable(observed)
     with Reach(funcs) as reach, Probe() as probe:
         mon = MembershipMonitor(ctx, fl)
         mon.install(probe)
         mon.keeper = ResultKeeper(ctx)
         for i, rnd in ctx.cases("terms", len(kinds) * nparam):
             kind = kinds[i % len(kinds)]
-            lo, hi, d = ranges(rnd)
+            lo, hi, d = ranges(rnd) if (i // len(kinds)) % 8 != 7 else extreme_ranges(rnd)
+            if d is None:
+                ctx.hit("workload:range far from the origin, very wide or very narrow")
             spec = G.shape_term(rnd, "t", lo, hi, kind=kind, d=d, free_height=True)
+            if kind in SQUARING and not computable(spec["params"]):
+                lo, hi, d = ranges(rnd)  # (out of domain, see computable(); the pinned code raises OverflowError there)
+                spec = G.shape_term(rnd, "t", lo, hi, kind=kind, d=d, free_height=True)
             route = rnd.choice(["constructor", "constructor", "factory", "create"])
             term = G.build_term(fl, spec, route=route)
             ctx.hit(f"route:{route}")
@@ -222,7 +260,7 @@ def run(ctx):
                 term.membership(np.float64(xs[0]))
                 term.membership(arr[:, None])
                 term.membership([float(v) for v in xs[:7]])  # a plain list
-                term.membership(int(round(lo)))  # a Python int
+                term.membership(int(round(lo)) if abs(lo) < 2.0**62 else 0)  # a Python int
                 term.membership(arr[:6].astype(np.float32))
                 term.membership(arr[:1])  # a batch of one
                 ctx.hit("forms:list,int,float32,batch-of-one")
@@ -231,12 +269,13 @@ def run(ctx):
                 M = arr[:k].reshape(4, -1)
                 ro = np.array(arr[:5])
                 ro.flags.writeable = False
-                fin = [v for v in xs if math.isfinite(v)]
+                fin = [v for v in xs if math.isfinite(v) and abs(v) < 2.0**62] or [0.0]
+                ilo = int(round(lo)) if abs(lo) < 2.0**62 else 0
                 for what, A in {
                     "transposed": M.T, "fortran order": np.asfortranarray(M), "strided": arr[::3], "reversed": arr[::-1], "row": arr[None, :],
                     "read-only row broadcast over a batch": np.broadcast_to(ro, (3, 5)), "1x1": arr[:1].reshape(1, 1),
                     "integer array": np.array([int(round(v)) for v in fin[:8]]), "list of ints": [int(round(v)) for v in fin[:4]],
-                    "numpy integer": np.int64(int(round(lo))), "tuple": tuple(fin[:3]),
+                    "numpy integer": np.int64(ilo), "tuple": tuple(fin[:3]),
                 }.items():  # fmt: skip
                     term.membership(A)
                     ctx.hit("x form:" + what)
@@ -249,6 +288,9 @@ def run(ctx):
             spec = G.shape_term(rnd, "t", lo, hi, kind=kind, d=d)
             term = G.build_term(fl, spec)
             buf = np.array(G.x_values(rnd, spec, lo, hi, n=8))
+            # (two calls in a row on the same array object, refilled in between, with nothing else evaluated in between - not
+            # even by the monitor: state remembered from the first call must not answer the second)
+            mon.hands_off = i % 2 == 0
             for _ in range(3):
                 r1 = term.membership(buf)
                 keep = np.array(r1, copy=True)
@@ -264,6 +306,7 @@ def run(ctx):
                         setattr(term, attr, v)
                     ctx.hit("event:parameters changed between calls")
                     term.membership(buf)
+            mon.hands_off = False
         # large batches: sizes on both sides of every power of two from 2^12 to 2^17 (block-wise fast paths), with NaN and +-inf
         # among the values; 1-D and as a transposed matrix
         for i, rnd in ctx.cases("sizes", len(kinds)):
@@ -281,6 +324,21 @@ def run(ctx):
                 if n % 2 == 0:
                     term.membership(x.reshape(2, -1).T)
             ctx.hit("workload:large batch")
+        # the process in another state: warnings are errors, the library logs at DEBUG, other NumPy print options - terms with
+        # vertical edges and infinite shoulders included (their definitions divide by zero in the branches that are not taken)
+        for i, rnd in ctx.cases("environments", len(kinds) * len(ENVIRONMENTS) * ctx.scale(2, 20)):
+            kind, envname = kinds[i % len(kinds)], ENVIRONMENTS[(i // len(kinds)) % len(ENVIRONMENTS)]
+            lo, hi, d = ranges(rnd)
+            spec = G.shape_term(rnd, "t", lo, hi, kind=kind, d=d)
+            if kind in ("Triangle", "Trapezoid") and i % 2:
+                spec["params"][0] = rnd.choice([spec["params"][1], -math.inf])
+                spec["params"][-1] = rnd.choice([spec["params"][-2], math.inf])
+            xs = G.x_values(rnd, spec, lo, hi, n=6)
+            with hostile(fl, envname, ctx):
+                term = G.build_term(fl, spec)
+                term.membership(np.array(xs))
+                for v in xs[:12]:
+                    term.membership(v)
         # a Discrete term whose pairs are put in order by sort(): the pairs stay pairs, and a sorted term is left as it is
         for i, rnd in ctx.cases("discrete-sort", ctx.scale(30, 600)):
             n = rnd.randint(2, 7)
@@ -305,6 +363,7 @@ def run(ctx):
         mon.check_monotonic()
         probe.report(ctx)
         reach.report(ctx)
+    ctx.require("workload:range far from the origin, very wide or very narrow", *[f"environment:{e}" for e in ENVIRONMENTS])
     ctx.require("workload:large batch", "event:Discrete sorted before evaluation", "law:results of earlier calls left alone", "x form:transposed", "x form:integer array", "x form:read-only row broadcast over a batch")
     for k in kinds:
         ctx.require(f"hook:{k}.membership", f"piece:{k}:nan-x", f"piece:{k}:infinite-x")
